@@ -158,7 +158,7 @@ def base_scope(scratch: Path):
 
 def header(scratch: Path) -> str:
     b = base_scope(scratch)
-    return ("From RattrV Require Import Base Str PyAst Naming Context FuncAn FaCheck.\n"
+    return ("From RattrV Require Import Base Str PyAst Naming Context FuncAn FaCheck Occurs FaSpecCheck.\n"
             "Open Scope string_scope.\nOpen Scope list_scope.\n"
             f"Definition builtins_scope : scope := {C.clist(c_sym(t) for t in b)}.\n")
 
